@@ -137,7 +137,7 @@ def union_f3(raised: Optional[str], first: Optional[str]) -> bool:
 def report(ctx: Ctx, what: str, case: dict, detail: Any) -> None:
     fid = known_match(case, detail)
     if fid and any(e['id'] == fid and e.get('status') == 'known' for e in ctx.known):
-        ctx.known_hit(fid)
+        ctx.known_hit(fid, case, detail)
     else:
         ctx.failure(what, case, detail)
 
